@@ -193,6 +193,7 @@ pub fn run_c02(ctx: &mut Ctx, shard: usize, nshards: usize) {
         let c = if i % 2 == 0 { cfgs::sr(&mut s, m) } else { cfgs::rr(&mut s, m) };
         check(ctx, &c, hows(i));
     }
+    relational(ctx, shard, nshards, &["sr", "rr"]);
 }
 
 pub fn floor_c02(ctx: &Ctx) -> Vec<(String, bool)> {
@@ -347,9 +348,23 @@ pub fn run_c03(ctx: &mut Ctx, shard: usize, nshards: usize) {
     large_and_oversize(ctx, shard, nshards, "sdes");
 }
 
+/// The relational configurations (see `writers::relational_cfgs`) of the given kinds, each through all four routes.
+fn relational(ctx: &mut Ctx, shard: usize, nshards: usize, kind_prefixes: &[&str]) {
+    for (k, c) in crate::mon::writers::relational_cfgs().into_iter().enumerate() {
+        if k % nshards != shard || (ctx.scale < 0.5 && k % 7 != 0) || !kind_prefixes.iter().any(|p| c.kind_name().starts_with(p)) {
+            continue;
+        }
+        for h in 0..4 {
+            check(ctx, &c, hows(h));
+        }
+        ctx.class("relational-configuration");
+    }
+}
+
 /// Images beyond 65 535 bytes, and one configuration beyond the 65 536-word limit per kind that can
 /// reach it (the builder is the judge of acceptance; what it accepts must come back).
 fn large_and_oversize(ctx: &mut Ctx, shard: usize, nshards: usize, kind_prefix: &str) {
+    relational(ctx, shard, nshards, &[kind_prefix]);
     if ctx.scale < 0.5 {
         return;
     }
@@ -448,6 +463,7 @@ pub fn run_c04(ctx: &mut Ctx, shard: usize, nshards: usize) {
         check(ctx, &c, hows(i));
     }
     large_and_oversize(ctx, shard, nshards, "app");
+    relational(ctx, shard, nshards, &["bye"]);
 }
 
 pub fn floor_c04(ctx: &Ctx) -> Vec<(String, bool)> {
@@ -566,6 +582,7 @@ pub fn run_c05(ctx: &mut Ctx, shard: usize, nshards: usize) {
         check(ctx, &c, hows(i));
     }
     large_and_oversize(ctx, shard, nshards, "pfb-");
+    relational(ctx, shard, nshards, &["tfb-"]);
     if shard == 1 % nshards && ctx.scale >= 0.5 {
         // dense random sets up to 5000
         let mut s = Src::prng(mix(ctx.seed, 0xc05_5000));
